@@ -13,7 +13,7 @@ use serde_json::{json, Value};
 use std::collections::{BTreeSet, HashSet};
 
 /// the tree of a real term; None when it has more than `budget` nodes
-fn shape(e: RegLan, budget: &mut i64) -> Option<Value> {
+pub fn shape(e: RegLan, budget: &mut i64) -> Option<Value> {
     *budget -= 1;
     if *budget < 0 {
         return None;
